@@ -376,6 +376,30 @@ func main() {
 		cases = append(cases, c)
 		dist["lib:native-sweep"]++
 	}
+	// command entrance: EVERY subset of the input-mode flags × documents of every kind × queries
+	// that read input (the readers are selected by a chain of switches over these flags)
+	{
+		flags := []string{"--yaml-input", "--raw-input", "--slurp", "--stream", "--null-input", "--seq"}
+		docs := []string{"a: 1\nb: [1, 2]\n", "- 1\n- x\n", "42\n", "plain string\n", "[1,{\"a\":2}]\n", "{\"a\":1} 2 \"s\"\n", "{\"a\":", "", "---\n- a\n---\nb: c\n", "\x1e[1]\n\x1e2\n", "\"x\"\n\"y\"\n", "null\n", "? [1]\n: 2\n", "a: &x 1\nb: *x\n", "\xff\n"}
+		queries := []string{".", "[inputs]", "input", "[., input]", "[limit(2; inputs)]", ".[0]?", "tojson", "length", "input_line_number"}
+		for m := 0; m < 1<<len(flags); m++ {
+			var fs []string
+			for i, f := range flags {
+				if m&(1<<i) != 0 {
+					fs = append(fs, f)
+				}
+			}
+			for di, d := range docs {
+				for qi, q := range queries {
+					if !ctx.Thorough && (m+di*3+qi*5)%4 != 0 {
+						continue
+					}
+					cases = append(cases, caseT{Kind: "cli", Args: append(append([]string{"-c"}, fs...), q), Stdin: d})
+					dist["cli:input-mode-subsets"]++
+				}
+			}
+		}
+	}
 	nCli := ctx.N(6000, 120000)
 	for i := 0; i < nCli; i++ {
 		cases = append(cases, genCli(r, corpus))
@@ -461,6 +485,14 @@ var sweepLits = []string{"null", "true", "0", "-1", "1.5", "nan", "infinite", "-
 	"9223372036854775807", "-9223372036854775808", "100000000000000000000", "2147483648", "[\"a\",0]", "{\"start\":0,\"end\":-1}", "\"%Z\"", "\"(\"", "[null,null,null,null]", "[[0,1],[1]]", "\"abc\""}
 var sweepCore = []string{"null", "0", "-1", "nan", "\"a\"", "[]", "[1]", "[3,2,1]", "{\"a\":1}", "1e1000", "100000000000000000000", "[[1],[2]]"}
 
+var inCore = func() map[string]bool {
+	m := map[string]bool{"true": true, "1.5": true, "{}": true, "[0]": true}
+	for _, x := range sweepCore {
+		m[x] = true
+	}
+	return m
+}()
+
 // nativeSweep enumerates `v | name(a1; …)` over the native table.
 func nativeSweep(r *common.Rand, thorough bool) []caseT {
 	var out []caseT
@@ -471,12 +503,24 @@ func nativeSweep(r *common.Rand, thorough bool) []caseT {
 		names = append(names, k)
 	}
 	sort.Strings(names)
+	pathWraps := []string{"path(%s)", "(%s) |= .", "del(%s)", "[paths(%s)]", "(%s) = 1", "path(.a? | %s)", "pick(%s)"}
 	emit := func(name string, v string, args []string) {
 		call := name
 		if len(args) > 0 {
 			call += "(" + strings.Join(args, "; ") + ")"
 		}
 		out = append(out, caseT{Kind: "lib", Src: v + " | try (" + call + ") catch .", Input: "n"})
+		// the same call under path tracking (the interpreter post-processes the answers of
+		// path-aware natives there), for the small literals
+		if len(args) <= 1 && inCore[v] && (len(args) == 0 || inCore[args[0]]) && (thorough || r.Chance(1, 3)) {
+			w := pathWraps[r.Intn(len(pathWraps))]
+			out = append(out, caseT{Kind: "lib", Src: v + " | try (" + strings.ReplaceAll(w, "%s", call) + ") catch .", Input: "n"})
+			if name == "getpath" || name == "_index" || name == "_slice" || name == "paths" || name == "setpath" || name == "delpaths" || name == "has" {
+				for _, w := range pathWraps {
+					out = append(out, caseT{Kind: "lib", Src: v + " | " + strings.ReplaceAll(w, "%s", call), Input: "n"})
+				}
+			}
+		}
 	}
 	for _, name := range names {
 		if skip[name] || strings.HasPrefix(name, "$") {
